@@ -20,15 +20,27 @@ import (
 
 var c13Sizes = []int{0, 1, 16383, 16384, 16385}
 
-func c13GenContent(t *rapid.T, label string, bigPermille int) c13Content {
+// c13Rare is true with probability of roughly 0.55*num/64. rapid's integer
+// generators are heavily biased towards small values and the maximum, so the
+// rare outcome is mapped to values that need the full bit length.
+func c13Rare(t *rapid.T, label string, num int) bool {
+	if num <= 0 {
+		return false
+	}
+	k := rapid.IntRange(0, 63).Draw(t, label)
+	return k <= 62 && k >= 63-num
+}
+
+func c13GenContent(t *rapid.T, label string, bigNum int) c13Content {
 	c := c13Content{Flip: -1, Seed: rapid.Byte().Draw(t, label+"Seed")}
-	k := rapid.IntRange(0, 999).Draw(t, label+"SizeKind")
-	switch {
-	case k < bigPermille:
+	if c13Rare(t, label+"Big", bigNum) {
 		c.N = 3 << 20
-	case k < 700:
+		return c
+	}
+	switch rapid.SampledFrom([]string{"boundary", "boundary", "small", "boundary", "mid", "small", "boundary"}).Draw(t, label+"SizeKind") {
+	case "boundary":
 		c.N = rapid.SampledFrom(c13Sizes).Draw(t, label+"Size")
-	case k < 780:
+	case "mid":
 		c.N = rapid.SampledFrom([]int{16386, 32768, 32769, 49152, 100000}).Draw(t, label+"SizeMid")
 	default:
 		c.N = rapid.IntRange(2, 64).Draw(t, label+"SizeSmall")
@@ -175,9 +187,9 @@ func c13KeyOfRel(rel string) string {
 func TestVerifC13Model(t *testing.T) {
 	rec := vfstat.New("C13Model")
 	defer rec.Flush()
-	bigPermille := 4
+	bigPermille := 1 // numerator for c13Rare: ~0.9 % of contents are 3 MiB
 	if vfstat.Thorough() {
-		bigPermille = 20
+		bigPermille = 4
 	}
 	ctx := context.Background()
 	rapid.Check(t, func(t *rapid.T) {
@@ -199,7 +211,7 @@ func TestVerifC13Model(t *testing.T) {
 		bigs := 0
 		fail := func(format string, args ...any) {
 			t.Helper()
-			t.Fatalf("%s\n  history: %s", fmt.Sprintf(format, args...), strings.Join(hist, " ; "))
+			t.Fatalf("%s", c13Det(fmt.Sprintf("%s\n  history: %s", fmt.Sprintf(format, args...), strings.Join(hist, " ; ")), a.base))
 		}
 		checkAfter := func(what string) {
 			if d := m.CheckTree(a.root); d != "" {
@@ -229,11 +241,26 @@ func TestVerifC13Model(t *testing.T) {
 			} else if len(key)%2 == 0 {
 				opts = &UploadOptions{} // nil and empty options must behave alike
 			}
-			r, hang, ierr := c13Call(filepath.Join(a.root, c13Rel(key)), func() ([]byte, error) {
-				return nil, be.Upload(ctx, key, data, opts)
-			})
-			if ierr != nil {
-				t.Fatalf("VERIF-INCONCLUSIVE: %s: %v", desc, ierr)
+			shape := c13HangShape(data, imm, c13KeyValid(key) && (existing != nil || m.dirs[c13Rel(key)]))
+			var r c13Ret
+			var hang *c13Hang
+			if h, ok := c13HangMemo.Load(shape); ok && shape != "" {
+				hang = h.(*c13Hang)
+				t.Logf("call shape %q was confirmed to spin earlier in this process and is not executed again; evidence then: %s", shape, hang.evidence)
+			} else {
+				var ierr error
+				r, hang, ierr = c13Call(filepath.Join(a.root, c13Rel(key)), func() ([]byte, error) {
+					return nil, be.Upload(ctx, key, data, opts)
+				})
+				if ierr != nil {
+					t.Fatalf("VERIF-INCONCLUSIVE: %s: %v", desc, ierr)
+				}
+				if hang != nil {
+					if shape != "" {
+						c13HangMemo.Store(shape, hang)
+					}
+					t.Logf("evidence of spinning: %s", hang.evidence)
+				}
 			}
 			if hang != nil {
 				fail("%s", c13HangMessage(desc, existing, hang))
